@@ -1,5 +1,7 @@
 """Per-property configuration of the check driver."""
 
+HOOKS = {}
+
 TRUSTED_BASE = [
     "Lean 4.33.0 kernel (thorough tier: re-checked by leanchecker)",
     "axioms allowed in property theorems: propext, Classical.choice, Quot.sound (audited by #print axioms on every run)",
@@ -218,6 +220,41 @@ PROPS["C15"] = dict(
 )
 
 
+PROPS["C14"] = dict(
+    n_quick=6000, n_thorough=200000,
+    classify=lambda op, i, m: "huge:" + ("stepped" if op.split(" ")[3] != "0" else "plain") + ":" + ("desc" if int(op.split(" ")[1]) > int(op.split(" ")[2]) else "asc") + ":1e" + str(len(str(abs(int(op.split(" ")[1]) - int(op.split(" ")[2]))))),
+    rule="op huge: NewFrameSet / NewFileSequence of one range A-B or A-BxN with |A|,|B| up to 1e3, 1e6, 1e9, 1e12, 1e13, both "
+         "directions, N in {1,2,3,7,10,999,1e6,random<=1e6} of either sign; queries at the boundaries (index -2..2, len-3..len+2), "
+         "at random interior members and at their neighbours; observed: len, start, end, frame-at-index, index-of-frame, "
+         "membership, String, frame paths, and 'cheap' (the whole op allocated < 256 KiB and took < 2 s); compared with the "
+         "model and with the closed-form specification; non-trivial = any distinct op",
+    assumptions=["A-float (Len through float64 exact below 2^53)", "time and allocation are measured, not proved"],
+)
+PROPS["C16"] = dict(
+    n_quick=60, n_thorough=1500, impl_cmd=[__import__("os").path.join(__import__("os").path.dirname(__import__("os").path.dirname(__import__("os").path.abspath(__file__))), "build", "racer"), "run"],
+    pre=["build_racer"], timeout=1800,
+    classify=lambda op, i, m: "race:" + op.split(" ")[2] + "goroutines",
+    rule="op race: a FRESH process built with -race in which 2-16 goroutines, released by one barrier as the very first library "
+         "calls of the process, each issue 5-60 random API calls on their own values (NewFrameSet, NewFileSequencePad of both "
+         "styles, SetPaddingStyle, Format, Copy, Split, IsFrameRange, PadFrameRange, FramesToFrameRange, FindSequencesInList, "
+         "PaddingChars); a race report, a crash, or results differing from a sequential re-computation fail the op; "
+         "non-trivial = any distinct op",
+    assumptions=["Go memory model and race detector; schedules of the real code are sampled"],
+)
+PROPS["C20"] = dict(
+    n_quick=3000, n_thorough=40000, impl_cmd=[__import__("os").path.join(__import__("os").path.dirname(__import__("os").path.dirname(__import__("os").path.abspath(__file__))), "build", "handles", "handlesdrv")],
+    pre=["build_handles"], timeout=1500,
+    classify=lambda op, i, m: ("stress:" + op.split(" ")[2] + "threads") if op.startswith("hstress") else ("history:" + ("stale" if "X" in op or "g0" in m else "live")),
+    rule="ops handles (single-threaded history of Add/Incref/Decref/Get/Len on up to 8 handles of either map, incl. handles "
+         "already released and unknown ids; every result and Len compared with the sequential model; ids checked non-zero and "
+         "distinct) and hstress (2-8 goroutines x 1-8 handles x up to 3000 random owner-only operations, built with -race: no "
+         "failed lookup while owned, live count back to the start at quiescence, no race report); the driver is built on every "
+         "run from unchanged copies of /repo/exp/cpp/export/storage.go and uuid.go; non-trivial = any distinct op",
+    assumptions=["interleavings of the real code are sampled (race detector + stress), the theorem covers all interleavings of the model",
+                 "full period 2^64-1 of xorshift64 is cited, not proved"],
+)
+
+
 def _negzero_single(op, impl, model_line):
     if not op.endswith(" single"):
         return False
@@ -351,6 +388,24 @@ MANIFEST_TEXT = {
              "basename+frame+extension under the pattern's key, so no sibling contributes a phantom frame; slice bounds hold.",
         note="Partial: as C06 for the OS side; 'every frame path exists' is checked on real directories (model: exact cover of the "
              "bucket). Known finding: negative-zero frame tokens. Trusted: Lean kernel, correspondence."),
+    "C14": dict(
+        text="Theorems: the accessors of a single plain/stepped range are the closed forms of GfsSpec.Closed for ALL integers, those "
+             "equal the enumerated specification, and on the property's domain no intermediate leaves int64; the loop structure of "
+             "the closed-form functions is re-extracted from the sources on every run and must equal the expected one. Time and "
+             "allocation are measured per op (< 256 KiB, < 2 s), not proved.",
+        note="Partial: memory and time are runtime behaviour; A-float (Len via float64) assumed. Trusted: Lean kernel, gofacts "
+             "(go/ast), correspondence."),
+    "C16": dict(
+        text="Theorems: threads that only read shared state are schedule-independent and conflict-free (any number of threads, "
+             "any schedule); the hypothesis is discharged against the code by the regenerated fact that no function outside init "
+             "writes package-level state. The Go runtime side is exercised by fresh -race processes from a cold start.",
+        note="Partial: Go memory model, stdlib thread safety and the syntactic alias approximation of gofacts are assumed."),
+    "C20": dict(
+        text="Theorems over a small-step model with one action per Go statement touching shared state, for any number of threads and "
+             "handles and every interleaving: count = owned references, resolves while positive, removed exactly at zero, empty at "
+             "quiescence, RWMutex discipline, owner lookups succeed, no underflow; xorshift64 step injective and zero-free "
+             "(kernel-only, no bv_decide); stale handles are no-ops. The statement skeleton of both maps is re-extracted per run.",
+        note="Partial: generator period 2^64-1 cited; interleavings of the real code are sampled (-race stress)."),
     "C08": dict(
         text="Theorems: for every accepted range text with >= 1 frame the model's Normalize yields sortedSet of the frames and "
              "Invert the complement within [min,max], both well-formed; their printed strings re-parse to those lists; "
